@@ -773,7 +773,7 @@ impl<'a> Cx<'a> {
     }
     /// bind an effectful term, answer the variable
     fn hoist(&mut self, x: X) -> X {
-        let x = if self.opts.prog_mode { tracks2::lift_except(x) } else { x };
+        let x = if self.opts.prog_mode { tracks2::lift_except_in(&self.opts, x) } else { x };
         let n = self.fresh_name("t");
         self.emit(St::Bind(n.clone(), x));
         X::A(n)
@@ -844,6 +844,8 @@ impl<'a> Cx<'a> {
                     "Self" => self.self_ty.clone().ok_or("Self outside impl".to_string()),
                     "Option" if args.len() == 1 => Ok(T::opt(args[0].clone())),
                     "Vec" | "GridTrackVec" if args.len() == 1 => Ok(T::list(args[0].clone())),
+                    // `Range<usize>`: the pair of its bounds
+                    "Range" if args.len() == 1 && args[0] == T::Usize => Ok(T::Tuple(vec![T::Usize, T::Usize])),
                     _ => {
                         if self.env.reg.strukt(&name).is_some() || self.env.reg.enm(&name).is_some() || self.env.reg.wrap(&name).is_some() {
                             return Ok(T::Adt(name, args));
@@ -1062,6 +1064,15 @@ impl<'a> Cx<'a> {
                 Ok((x, et))
             }
             Expr::Closure(_) => self.closure_value(e, expect),
+            // `a..b` as a value (`Range<usize>`): the pair of its bounds
+            Expr::Range(r) if matches!(r.limits, syn::RangeLimits::HalfOpen(_)) && r.start.is_some() && r.end.is_some() => {
+                let (a, at) = self.expr(r.start.as_ref().unwrap(), &T::Usize)?;
+                let (b, bt) = self.expr(r.end.as_ref().unwrap(), &T::Usize)?;
+                if !at.is_int() || !bt.is_int() {
+                    return Err("range bound is not an integer".into());
+                }
+                Ok((X::Tuple(vec![a, b]), T::Tuple(vec![T::Usize, T::Usize])))
+            }
             _ => Err(format!("unsupported expression `{}`", q(e))),
         }
     }
@@ -1111,6 +1122,29 @@ impl<'a> Cx<'a> {
                 Ok((Tail::If(c, Box::new(a), Box::new(b)), at.join(&bt)))
             }
             Expr::Match(m) => self.match_tail(m, expect, &mut |s: &mut Self, body: &Expr, ex: &T| s.sub_expr_block(body, ex)),
+            // `o.unwrap_or_else(|| { …; v })` as the tail of a block: `match o with | some v => v | none => (…; v)`; the closure's statements
+            // (which may assign outer places: `self.cache = Some(v)`) run only in the `none` arm
+            Expr::MethodCall(m) if m.method == "unwrap_or_else" && m.args.len() == 1 && matches!(strip(&m.args[0]), Expr::Closure(c) if c.inputs.is_empty()) => {
+                let c = match strip(&m.args[0]) {
+                    Expr::Closure(c) => c,
+                    _ => unreachable!(),
+                };
+                let (recv, rt) = self.expr(&m.receiver, &T::Unknown)?;
+                let it = match &rt {
+                    T::Opt(t) => (**t).clone(),
+                    t => return Err(format!("`unwrap_or_else` on a value of type {:?}", t)),
+                };
+                let body: Vec<Stmt> = match &*c.body {
+                    Expr::Block(b) if b.label.is_none() => b.block.stmts.clone(),
+                    other => vec![Stmt::Expr(other.clone(), None)],
+                };
+                let v = self.fresh_name("v");
+                let (blk, bt) = self.sub_block(&body, &it.join(expect))?;
+                if !it.compatible(&bt) {
+                    return Err(format!("`unwrap_or_else` closure of type {:?} on an option of {:?}", bt, it));
+                }
+                Ok((Tail::Match(vec![recv], vec![(vec![format!("(some {v})")], Blk::val(X::A(v))), (vec!["none".to_string()], blk)]), it.join(&bt)))
+            }
             _ => {
                 let (x, t) = self.expr(e, expect)?;
                 // a structured value (`matches!`, a tag test) that is the whole tail: its block is the tail
@@ -1216,6 +1250,53 @@ impl<'a> Cx<'a> {
             T::Adt(n, _) => n.clone(),
             _ => return Err("struct literal of a non-struct".into()),
         };
+        if self.env.reg.strukt(&an).is_none() {
+            // a struct of the first translator's registry (`Rect { left, right, top, bottom }`, `Size { width, height }`): its type arguments
+            // are read off the field values
+            if let Some(a) = self.env.w.adt(&an).cloned() {
+                if let AdtKind::Struct(fs) = &a.kind {
+                    let mut args: Vec<T> = match &ty {
+                        T::Adt(_, args) if args.len() == a.nparams => args.clone(),
+                        _ => vec![T::Unknown; a.nparams],
+                    };
+                    let mut given = vec![];
+                    for fv in &s.fields {
+                        if !self.cfg.enabled(&fv.attrs)? {
+                            continue;
+                        }
+                        let name = match &fv.member {
+                            syn::Member::Named(n) => n.to_string(),
+                            _ => return Err("positional struct literal".into()),
+                        };
+                        let fd = fs.iter().find(|f| f.rust == name).ok_or(format!("struct {an} has no known field `{name}`"))?;
+                        let ex = match &fd.ty {
+                            Ty::Param(i) => args.get(*i).cloned().unwrap_or(T::Unknown),
+                            t => from_ty(t),
+                        };
+                        let (v, vt) = self.expr(&fv.expr, &ex)?;
+                        if !ex.compatible(&vt) {
+                            return Err(format!("struct literal of {an}: field `{name}` of type {:?}, expected {:?}", vt, ex));
+                        }
+                        if let Ty::Param(i) = &fd.ty {
+                            if *i < args.len() {
+                                args[*i] = args[*i].join(&vt);
+                            }
+                        }
+                        given.push((fd.lean.clone(), v));
+                    }
+                    for f in fs {
+                        if !given.iter().any(|(n, _)| *n == f.lean) {
+                            return Err(format!("struct literal of {an} lacks field `{}`", f.rust));
+                        }
+                    }
+                    let ty = T::Adt(an.clone(), args);
+                    if ty.has_unknown() {
+                        return Err(format!("struct literal of {an}: type arguments not determined"));
+                    }
+                    return Ok((X::Struct(crate::emit::strip_parens(&self.env.lean_ty(&ty)), given), ty));
+                }
+            }
+        }
         let st = self.env.reg.strukt(&an).ok_or(format!("struct literal of {an}: not a registered struct of this translator"))?.clone();
         let mut given = vec![];
         for fv in &s.fields {
@@ -1346,6 +1427,13 @@ impl<'a> Cx<'a> {
             return Err(format!("operands of `{}` have different types {:?} / {:?}", q(b), lt, rt));
         }
         let cmp_int = |op: &str, l: X, r: X| X::app("decide", vec![X::Bin(op.into(), bx(l), bx(r))]);
+        // `impl Add for Rect<f32>` / `Size<f32>` as translated in Generated/Geometry.lean
+        if let (BinOp::Add(_), T::Adt(n, _)) = (&b.op, &lt) {
+            if let Some(f) = self.env.fns(n, "add").into_iter().find(|f| f.self_ty.as_ref() == Some(&lt) && f.params.len() == 1 && f.params[0] == rt) {
+                let ret = f.ret.clone();
+                return Ok((self.apply(&f, vec![l, r]), ret));
+            }
+        }
         match (&b.op, &lt) {
             (BinOp::Add(_), T::F32) => Ok((X::Bin("+".into(), bx(l), bx(r)), lt)),
             (BinOp::Sub(_), T::F32) => Ok((X::Bin("-".into(), bx(l), bx(r)), lt)),
@@ -1892,7 +1980,9 @@ impl<'a> Cx<'a> {
             Expr::Closure(c) => {
                 let ps: Vec<String> = c.inputs.iter().map(|p| crate::emit::norm(p)).collect();
                 let body = crate::emit::norm(&c.body);
-                ps.len() == 2 && self.dropped.iter().any(|d| body == format!("{d}.calc({},{})", ps[0], ps[1]))
+                // `|val, basis| { tree.resolve_calc_value(val, basis) }`: a block of one expression
+                let body = if body.starts_with('{') && body.ends_with('}') && !body.contains(';') { body[1..body.len() - 1].to_string() } else { body };
+                ps.len() == 2 && self.dropped.iter().any(|d| body == format!("{d}.calc({},{})", ps[0], ps[1]) || body == format!("{d}.resolve_calc_value({},{})", ps[0], ps[1]))
             }
             _ => false,
         }
@@ -2331,6 +2421,24 @@ impl<'a> Cx<'a> {
             }
             return Err("`next()` on something that is not an iterator held in a local".into());
         }
+        // a method of the untranslated `tree` parameter that is a program node (interaction form): `tree.measure_child_size(…)`
+        if self.opts.prog_mode {
+            if let Expr::Path(p) = strip(&m.receiver) {
+                if p.path.get_ident().map(|i| self.dropped.contains(&i.to_string())).unwrap_or(false) {
+                    if let Some((_, op)) = self.opts.tree_calls.iter().find(|(n, _)| *n == name).cloned() {
+                        let mut ls = vec![];
+                        for a in &args {
+                            let (x, t) = self.expr(a, &T::Unknown)?;
+                            if t.has_unknown() {
+                                return Err(format!("argument `{}` of `{name}`: type not determined", q(a)));
+                            }
+                            ls.push(x);
+                        }
+                        return Ok((self.hoist(X::App(op, ls)), T::F32));
+                    }
+                }
+            }
+        }
         let (recv, rt) = self.expr(&m.receiver, &T::Unknown)?;
         let view: Option<String> = match strip(&m.receiver) {
             Expr::Path(p) => p.path.get_ident().and_then(|i| self.views.get(&i.to_string()).cloned()),
@@ -2395,6 +2503,25 @@ impl<'a> Cx<'a> {
                 }
                 let (d, dt) = one(self, t)?;
                 Ok((X::app("Option.getD", vec![recv, d]), t.join(&dt)))
+            }
+            // `o.or_else(|| { …; if c { return e; } …; e' })`: the closure's block runs only when `o` is `None` (a `return` inside it leaves the closure)
+            (T::Opt(_), "or_else") if args.len() == 1 => {
+                let c = match strip(args[0]) {
+                    Expr::Closure(c) if c.inputs.is_empty() => c,
+                    _ => return Err("`or_else` without a closure literal".into()),
+                };
+                let body: Vec<Stmt> = match &*c.body {
+                    Expr::Block(b) if b.label.is_none() => b.block.stmts.clone(),
+                    other => vec![Stmt::Expr(other.clone(), None)],
+                };
+                let o = self.fresh_name("o");
+                self.emit(St::Let(o.clone(), recv));
+                let (blk, bt) = self.sub_block(&body, &rt)?;
+                if !rt.compatible(&bt) {
+                    return Err(format!("`or_else` closure of type {:?} on a value of type {:?}", bt, rt));
+                }
+                let keep = Blk::val(X::A(o.clone()));
+                Ok((self.embed(Blk { stmts: vec![], tail: Tail::If(X::app("Option.isSome", vec![X::A(o)]), Box::new(keep), Box::new(blk)) }), rt.join(&bt)))
             }
             (T::Opt(_), "or") => {
                 let (d, dt) = one(self, &rt)?;
@@ -2503,6 +2630,12 @@ impl<'a> Cx<'a> {
                 (None, _) => Ok((X::app("Slice.sumF32", vec![list]), T::F32)),
                 (Some(f), false) => Ok((X::app("Slice.sumF32", vec![X::app("List.map", vec![f, list])]), T::F32)),
                 (Some(f), true) => Ok((self.hoist(X::app("Slice.sumF32M", vec![f, list])), T::F32)),
+            },
+            // `impl Sum<Option<f32>> for Option<f32>`: `None` at the first `None`, otherwise the `f32` sum of the payloads
+            T::Opt(ref it) if **it == T::F32 => match (f, eff) {
+                (None, _) => Ok((X::app("Slice.sumOptF32", vec![list]), T::opt(T::F32))),
+                (Some(f), false) => Ok((X::app("Slice.sumOptF32", vec![X::app("List.map", vec![f, list])]), T::opt(T::F32))),
+                (Some(_), true) => Err("`sum::<Option<f32>>()` of a closure that can panic".into()),
             },
             t => Err(format!("`sum()` at element type {:?}", t)),
         }
@@ -2644,7 +2777,7 @@ impl<'a> Cx<'a> {
         if init.diverge.is_some() {
             return Err("let-else".into());
         }
-        if self.let_mut_call(pat, &init.expr)? || self.let_item_call(pat, &init.expr)? || self.let_match_assigning(pat, &init.expr)? {
+        if self.let_mut_call(pat, &init.expr)? || self.let_item_call(pat, &init.expr)? || self.let_match_assigning(pat, &init.expr)? || self.let_mut_method(pat, &init.expr)? || self.let_unwrap_or_else(pat, &init.expr)? {
             return Ok(());
         }
         let ex = ann.clone().unwrap_or(T::Unknown);
@@ -2686,6 +2819,38 @@ impl<'a> Cx<'a> {
                         }
                         Pat::Wild(_) => {}
                         _ => return Err("nested pattern in a tuple `let`".into()),
+                    }
+                }
+                Ok(())
+            }
+            // `let Size { width, height } = e;` (shorthand fields of a struct): one projection per field
+            Pat::Struct(ps) if ps.rest.is_none() && ps.qself.is_none() => {
+                let base = match &v {
+                    X::A(s) if !s.contains(' ') => v.clone(),
+                    _ => {
+                        let tmp = self.fresh_name("tmp");
+                        self.emit(St::Let(tmp.clone(), v));
+                        X::A(tmp)
+                    }
+                };
+                let tn = path_segs(&ps.path).last().cloned().unwrap_or_default();
+                match &vt {
+                    T::Adt(n, _) if *n == tn => {}
+                    _ => return Err(format!("struct pattern `{tn}` against a value of type {:?}", vt)),
+                }
+                for fp in &ps.fields {
+                    let fname = match &fp.member {
+                        syn::Member::Named(n) => n.to_string(),
+                        _ => return Err("positional struct pattern".into()),
+                    };
+                    let (lf, ft) = self.env.field(&vt, &fname)?;
+                    match &*fp.pat {
+                        Pat::Ident(i) if i.subpat.is_none() && i.by_ref.is_none() => {
+                            let n = self.declare(&i.ident.to_string(), ft);
+                            self.emit(St::Let(n, X::Field(Box::new(base.clone()), lf)));
+                        }
+                        Pat::Wild(_) => {}
+                        _ => return Err("nested pattern in a struct `let`".into()),
                     }
                 }
                 Ok(())
@@ -3405,6 +3570,10 @@ pub struct FnPlan<'s> {
 
 /// `impl Fn(*const (), f32) -> f32`: the calc resolver
 fn is_calc_resolver(sig: &syn::Signature, ty: &syn::Type) -> bool {
+    // `&dyn Fn(*const (), f32) -> f32`
+    if crate::emit::norm(ty) == "&dynFn(*const(),f32)->f32" {
+        return true;
+    }
     match crate::emit::fn_bound(sig, ty) {
         Some(pa) => pa.inputs.iter().any(|t| crate::emit::norm(t) == "*const()"),
         None => false,
@@ -3560,7 +3729,7 @@ pub fn translate_fn(w: &World, reg: &Reg, p: &FnPlan) -> R<(String, SFn)> {
         doc.push_str(d);
     }
     let rt = crate::emit::strip_parens(&cx.env.lean_ty(&lean_ret));
-    let ret_text = if eff && p.opts.prog_mode { format!("Slice.ItemProg ι α {}", cx.env.lean_ty(&lean_ret)) } else if eff { format!("Except GridTracks.GErr {}", cx.env.lean_ty(&lean_ret)) } else { rt };
+    let ret_text = if eff && p.opts.prog_mode && p.opts.prog_name.is_some() { format!("{} α {}", p.opts.prog_name.as_ref().unwrap().0, cx.env.lean_ty(&lean_ret)) } else if eff && p.opts.prog_mode { format!("Slice.ItemProg ι α {}", cx.env.lean_ty(&lean_ret)) } else if eff { format!("Except GridTracks.GErr {}", cx.env.lean_ty(&lean_ret)) } else { rt };
     let binders = format!("{}{binders}", p.opts.extra_binders);
     let body = blk.render(2, eff);
     let kw = if eff { " do" } else { "" };
